@@ -205,6 +205,7 @@ CallsCompleteInv == P!CallsComplete(cfg, Obs)
 NoPanicInv == P!NoPanic(cfg, Obs)
 Settle1Inv == P!Settle1(cfg, Obs)
 Settle2Inv == P!Settle2(cfg, Obs)
+LiftClosesInv == P!LiftCloses(cfg, Obs)
 \* liveness (under fairness of the library): once cancelled with the input closed and no call held, the stage is gone for good
 Gone == LiveCount = 0
 EventuallyGone == [](env.cancelled /\ env.closedIn => <>(Gone \/ Pending > 0))
